@@ -486,7 +486,7 @@ impl Monitor for ImageMonitor {
         let Some(d) = w.stations[self.dp.st].apps.get(self.dp.app).and_then(|p| p.dp()) else { return };
         // which peripheral must / may / must not have been updated in this poll
         let mut must: Option<usize> = None;
-        let mut may: Option<usize> = None;
+        let may: Option<usize> = None;
         for c in p.calls {
             match c {
                 AppCall::Reply { app, addr, frame } if *app == self.dp.app => {
@@ -513,11 +513,12 @@ impl Monitor for ImageMonitor {
                                     self.per[k].shadow_i = pdu.clone();
                                     must = Some(k);
                                 }
+                                // RDL / RDH ("data not received") and NR are error statuses for
+                                // Data_Exchange even when they carry a payload of the right length:
+                                // the slave did not take the outputs
                                 12 | 13 | 9 if well_formed => {
-                                    // the standard allows either reading
-                                    self.per[k].maybe = Some(pdu.clone());
-                                    may = Some(k);
                                     self.n_dontcare += 1;
+                                    self.n_rejected += 1;
                                 }
                                 _ => self.n_rejected += 1,
                             }
@@ -619,7 +620,7 @@ impl Monitor for ImageMonitor {
         s.add("image.dx_requests_checked", self.n_dx_checked);
         s.add("image.input_updates", self.n_updates);
         s.add("image.replies_rejected", self.n_rejected);
-        s.add("image.dont_care_status", self.n_dontcare);
+        s.add("image.error_status_with_wellformed_payload", self.n_dontcare);
         s.add("probe.sc_for_inputless_peripheral", self.n_sc_updates);
     }
 }
@@ -1207,6 +1208,16 @@ impl Monitor for CycleMonitor {
                 );
                 return;
             }
+            if !running && matches!(ev_for, Some((kk, PeripheralEvent::DataExchanged)) if kk == k) {
+                w.violate(
+                    self.prop,
+                    "cycle.accessors",
+                    "data-exchanged-but-not-running",
+                    Some(master),
+                    format!("#{addr}: a DataExchanged event was reported in this poll but is_running() is false after it"),
+                );
+                return;
+            }
             st.was_live = live;
             st.was_running = running;
         }
@@ -1323,6 +1334,25 @@ impl LivenessMonitor {
                             ),
                         );
                         return;
+                    }
+                    // ... and so must the slave be: the master's belief alone is not data exchange
+                    if let Some(sl) = w.slaves.iter().find(|s| s.cfg.addr == addr) {
+                        if sl.state != crate::slave::SlaveState::DataExch || sl.master != Some(master) {
+                            w.violate(
+                                self.prop,
+                                "liveness.recovery",
+                                "running-but-slave-not-in-data-exchange",
+                                Some(master),
+                                format!(
+                                    "the master reports #{addr} as running {} us ({} DP cycles) after the last fault, but the conforming slave is in state {:?} (locked by {:?}) and is not exchanging data",
+                                    w.to_us(w.now - self.quiet_from),
+                                    self.cycles_after_quiet,
+                                    sl.state,
+                                    sl.master
+                                ),
+                            );
+                            return;
+                        }
                     }
                     if self.went_offline[k] {
                         let ev = &self.since_offline[k];
